@@ -231,6 +231,33 @@ func init() {
 					}
 					c.Case(0, true, map[bool]string{true: "accepted", false: "refused"}[ok])
 				}})
+			// two-digit counts and the byte boundaries (declaration written with several digits)
+			mids := []int{9, 10, 11, 99, 100, 101, 255, 256, 257}
+			mk := []ref.Kind{ref.L, ref.A, ref.U1, ref.B, ref.I8}
+			sp = append(sp, h.Space{Name: "multi-digit-counts", Count: product(4, len(mk), len(mids), 3, 3),
+				Describe: func(i uint64) interface{} {
+					d := unrank(i, 4, len(mk), len(mids), 3, 3)
+					return fmt.Sprintf("form %d type %s declared around %d (offsets %d,%d)", d[0], mk[d[1]], mids[d[2]], d[3]-1, d[4]-1)
+				},
+				Run: func(c *h.Ctx, i uint64) {
+					d := unrank(i, 4, len(mk), len(mids), 3, 3)
+					form, k, actual := d[0], mk[d[1]], mids[d[2]]
+					a, b := actual+d[3]-1, actual+d[4]-1
+					text := "S1F1 W\n<" + k.String() + declText(form, strconv.Itoa(a), strconv.Itoa(b)) + " " + elemsText(k, actual, 0) + ">\n."
+					_, errs, _, pan := smlRun(text)
+					c.Ops(1)
+					in := "sml.Parse(" + strconv.Quote(trunc(text, 200)) + ")"
+					ok := within(form, a, b, actual)
+					switch {
+					case pan != "":
+						c.Fail("panic", in, pan)
+					case ok && len(errs) > 0:
+						c.Fail("size-within-bounds-refused:"+k.String(), in, fmt.Sprint(errs))
+					case !ok && len(errs) == 0:
+						c.Fail("size-outside-bounds-accepted:"+k.String(), in, fmt.Sprintf("count %d accepted for %s", actual, declText(form, strconv.Itoa(a), strconv.Itoa(b))))
+					}
+					c.Case(0, true, map[bool]string{true: "accepted", false: "refused"}[ok])
+				}})
 			// huge and overflowing bounds
 			huge := []string{"16777215", "16777216", "4294967296", "9223372036854775807", "9223372036854775808", "100000000000000000000"}
 			sp = append(sp, h.Space{Name: "huge-bounds", Count: product(4, 14, len(huge), 3),
